@@ -41,6 +41,19 @@ Proof. exact size_guard_refuted_pre. Qed.
 Theorem C09_size_guard_witness_refused : validate_size 1 [0; 10000000000; 10000000000]%N (2 ^ 32) = Reject.
 Proof. exact size_guard_witness_refused. Qed.
 
+(** (a') range validates dims ++ [rank] also when a dimension is 0 (commit 9313bfc), so the shape
+    it builds is valid; rerank prepends fewer than 99 axes (commit 13d1954).  The `_pre` theorems
+    are records about the models of the code before these commits *)
+Theorem C09_range_shape_valid : forall dims L n, (L < 2 ^ 53)%N -> (N.of_nat (length dims) + 1 < 2 ^ 50)%N ->
+  range_len dims L = Accept n -> (prod (nz (dims ++ [N.of_nat (length dims)])) <= usize_max)%N.
+Proof. exact range_shape_valid. Qed.
+Theorem C09_range_refuted_pre : exists dims L, (L < 2 ^ 53)%N /\ range_len_pre dims L = Accept 0%N /\ (usize_max < prod (nz dims))%N.
+Proof. exact range_refuted_pre. Qed.
+Theorem C09_rerank_prepends_bounded : forall rank len k, rerank_prepends rank len = Some k -> (k <= MAX_DIMS)%N.
+Proof. exact rerank_prepends_bounded. Qed.
+Theorem C09_rerank_refuted_pre : exists rank len k, rerank_prepends_pre rank len = Some k /\ (10 ^ 18 <= k)%N.
+Proof. exact rerank_refuted_pre. Qed.
+
 (** (b) along every execution (every oracle of data-dependent choices, every fuel) the call stack
     stays within the recursion limit + 1 + the frames a single function body stacks up by itself *)
 Theorem C09_call_depth_bounded : forall limit gl D,
@@ -94,6 +107,10 @@ Print Assumptions C09_size_guard_suffixes_fit.
 Print Assumptions C09_size_guard_complete_zero.
 Print Assumptions C09_size_guard_refuted_pre.
 Print Assumptions C09_size_guard_witness_refused.
+Print Assumptions C09_range_shape_valid.
+Print Assumptions C09_range_refuted_pre.
+Print Assumptions C09_rerank_prepends_bounded.
+Print Assumptions C09_rerank_refuted_pre.
 Print Assumptions C09_call_depth_bounded.
 Print Assumptions C09_sigcheck_cutoff.
 Print Assumptions C09_sigcheck_depth_bounded.
